@@ -1127,7 +1127,7 @@ MANIFEST_ENTRY = {
              'grid (M fpm_dx dx = lambda f, M >= both pupil sides) returns the field exactly for EVERY mask shift, from '
              'root-of-unity orthogonality, itself proved from the character law when the kernel of e is Z (instantiated with '
              'exp(-2 pi i t)); the model toFpmAndBack these theorems speak about equals the mask-and-return sum fed with the '
-             'GENERATED constants of both legs, and the arrays the Lean driver prints are these models. These are statements about '
+             'GENERATED constants of both legs, and the arrays the Lean driver prints are these models (babinet table included: driver_babinet_table_is_model). These are statements about '
              'the transform model; that method=czt and method=mdft both compute it is C03.ffs_czt_engine_eq_model / C01. '
              'TRANSLATED from the current source each run (10 items): to_fpm_and_back with both legs inlined by symbolic execution, '
              'for an array mask and for a Wavefront mask (identical leg arguments required) — per-axis Q of each leg, the shift each '
